@@ -40,6 +40,13 @@ def configs(ctx):
             Lc, Lr = pywt.Wavelet(wc).dec_len, pywt.Wavelet(wr).dec_len
             for hw in ((2 * Lc + 4, 2 * Lr + 7), (3 * Lc + 1, 3 * Lr)):
                 items.append((4, mode, (Lc, Lr), hw, 2 if max(Lc, Lr) <= 6 else 1, ((wc, wr),)))
+    # both modules built without a mode argument: analysis and synthesis must rely on the same default
+    for L in (4, 6):
+        if L in by:
+            wl = tuple(sorted(set(by[L])))
+            for N in (11, 16, 5):
+                items.append((1, 'default', L, N, 2, wl))
+            items.append((2, 'default', L, (9, 12), 2, wl[:3]))
     return items, by
 
 
